@@ -447,7 +447,8 @@ impl<F: Future> Future for Gate<F> {
     fn poll(self: Pin<&mut Self>, cx: &mut Context<'_>) -> Poll<F::Output> {
         let this = self.get_mut();
         let inner = this.inner.as_mut();
-        if this.id == 0 {
+        if this.id == 0 || !SCHED_ON.load(Ordering::SeqCst) {
+            // never gated, or the scheduler was removed: run freely (lets leftovers wind down)
             return inner.poll(cx);
         }
         let id = this.id;
